@@ -56,3 +56,9 @@ PLAN["C08"] = dict(quick=["time8"], thorough=["time8"])
 
 SUITES["time9"] = dict(mc="MC_Seq")
 PLAN["C09"] = dict(quick=["time9"], thorough=["time9"])
+
+SUITES["tsubs"] = dict(mc="MC_Seq")
+SUITES["retire"] = dict(mc="MC_Seq")
+PLAN["C02"] = dict(quick=["subs", "multi", "fin", "tsubs"], thorough=["subs", "multi", "fin", "tsubs", "subject", "share", "behavior"])
+PLAN["C17"] = dict(quick=["subs", "multi", "tsubs"], thorough=["subs", "multi", "tsubs"])
+PLAN["C16"] = dict(quick=["retire"], thorough=["retire"])
